@@ -299,3 +299,92 @@ def reject_wrong_shape(pos_i: int, route_i: int, bad_i: int) -> bool:
              type(exc).__name__, exc, bad, pos, route))
     hold("path", exc.ref_path in want, "ref_path %r not in %r (value %r via %s)" % (exc.ref_path, want, bad, route))
     return True
+
+
+EDITS = ("none", "insert0", "pop0", "reverse", "append")
+
+
+@obligation(prop="C15", sites=("path",), encodes=ENC, budget={"quick": 300, "thorough": 600},
+            examples=({"build": 1, "edit": 1, "j": 2, "typed": False}, {"build": 0, "edit": 3, "j": 0, "typed": True}),
+            what="index in the error path after the LIST WAS EDITED: a list of configurations is filled by "
+                 "assignment or by load_tree (symbolic), then edited in place (insert at 0, pop(0), reverse, append; "
+                 "symbolic), then item j of the edited list is given an invalid value: the path names items[j]")
+def reject_path_after_list_edit(build: int, edit: int, j: int, typed: bool) -> bool:
+    """
+    pre: 0 <= build <= 1 and 0 <= edit <= 4 and 0 <= j <= 3
+    post: _
+    """
+    item = Schema()
+    item.v = IntField(min=0, default=0)
+    item.tag = StringField(default="t")
+    schema = Schema()
+    schema.items = ListField(make_type_nt(item, "It") if typed else item, default=lambda: [])
+    cfg = schema()
+    start = [{"v": 10, "tag": "a"}, {"v": 11, "tag": "b"}, {"v": 12, "tag": "c"}]
+    if build == 0:
+        cfg.items = start
+    else:
+        cfg.load_tree({"items": start})
+    op = EDITS[0]
+    for n in range(len(EDITS)):
+        if edit == n:
+            op = EDITS[n]
+    if op == "insert0":
+        cfg.items.insert(0, {"v": 9, "tag": "z"})
+    elif op == "pop0":
+        cfg.items.pop(0)
+    elif op == "reverse":
+        cfg.items.reverse()
+    elif op == "append":
+        cfg.items.append({"v": 13, "tag": "d"})
+    if j >= len(cfg.items):
+        skip("index")
+    try:
+        cfg.items[j].v = -5
+    except ValidationError as exc:
+        want = "items[" + str(j) + "].v"
+        return hold("path", exc.ref_path == want, lambda: "ref_path %r, offending item is items[%d]" % (exc.ref_path, j))
+    return hold("path", False, "invalid value accepted")
+
+
+@obligation(prop="C15", sites=("path",), encodes=ENC, budget={"quick": 200, "thorough": 400},
+            what="a list of configuration-type items is loaded / assigned from maps where the failing item, up to "
+                 "the rejected entry, EQUALS an earlier item (config types compare by value): the path names the "
+                 "failing item's own index")
+def reject_path_equal_items_on_load(route: int, i: int, n: int) -> bool:
+    """
+    pre: 0 <= route <= 2 and 1 <= i < n <= 3
+    post: _
+    """
+    from vf.hlib.stubs import untraced
+    ri = ii = ni = 0
+    for c in range(4):       # the selectors are decided by the solver; everything after that is concrete and runs
+        if route == c:       # untraced (the engine's model of list.index() with value-equal config types confirmed a
+            ri = c           # case that fails in plain Python; the witness replay caught that)
+        if i == c:
+            ii = c
+        if n == c:
+            ni = c
+    with untraced():
+        return _equal_items(ri, ii, ni)
+
+
+def _equal_items(route: int, i: int, n: int) -> bool:
+    t = Schema()
+    t.name = StringField(default="")
+    t.v = IntField(min=0, default=0)
+    schema = Schema()
+    schema.tl = ListField(make_type_nt(t, "T"), default=lambda: [])
+    maps = [{"name": "a"} for _ in range(n)]
+    maps[i] = {"name": "a", "v": -5}
+    want = "tl[" + str(i) + "].v"
+    try:
+        if route == 0:
+            schema().load_tree({"tl": maps})
+        elif route == 1:
+            schema().tl = maps
+        else:
+            schema(tl=maps)
+    except ValidationError as exc:
+        return hold("path", exc.ref_path == want, lambda: "ref_path %r, expected %r" % (exc.ref_path, want))
+    return hold("path", False, "invalid item accepted")
